@@ -33,7 +33,31 @@ type FuncResult struct {
 	OutOfSubset bool
 }
 
+// VerifyFunc verifies one function; a contract with "instantiate p F" clauses is verified once per
+// clause with the function-typed parameter p bound to F (obligation names carry the binding).
 func (p *Program) VerifyFunc(fc *FuncContract) (res *FuncResult) {
+	if len(fc.Instantiate) == 0 {
+		return p.verifyFuncOnce(fc, [2]string{})
+	}
+	for _, inst := range fc.Instantiate {
+		r := p.verifyFuncOnce(fc, inst)
+		if res == nil {
+			res = r
+			continue
+		}
+		res.Obls = append(res.Obls, r.Obls...)
+		res.Notes = append(res.Notes, r.Notes...)
+		res.Paths += r.Paths
+		res.Returns += r.Returns
+		if res.Fault == "" {
+			res.Fault = r.Fault
+		}
+		res.OutOfSubset = res.OutOfSubset || r.OutOfSubset
+	}
+	return res
+}
+
+func (p *Program) verifyFuncOnce(fc *FuncContract, inst [2]string) (res *FuncResult) {
 	res = &FuncResult{Name: fc.Name, Pkg: fc.Pkg, Props: fc.Props, Assumes: fc.Assumes}
 	fn := p.LookupFunc(fc.Pkg, fc.Name)
 	label := pkgShort(fc.Pkg) + "." + fc.Name
@@ -54,6 +78,11 @@ func (p *Program) VerifyFunc(fc *FuncContract) (res *FuncResult) {
 		return
 	}
 	x := NewExec(p, fn, fc)
+	x.inst = inst
+	if inst[0] != "" {
+		label += "[" + inst[0] + "=" + inst[1] + "]"
+		resolves.Name = label + ":contract:resolves"
+	}
 	res.Mode = x.A.Mode.String()
 	defer func() {
 		if r := recover(); r != nil {
@@ -120,6 +149,23 @@ func (x *Exec) initState() *State {
 			if _, ok := p.Type().Underlying().(*types.Pointer); ok && (x.FC == nil || !hasEffect(x.FC, "nilrecv")) {
 				st.Assume(Neq(v.(Scalar).T, IntC(0)))
 			}
+		}
+	}
+	if x.inst[0] != "" {
+		bound := false
+		for _, p := range x.Fn.Params {
+			if p.Name() == x.inst[0] {
+				tf := x.P.LookupFunc(x.Pkg, x.inst[1])
+				if tf == nil {
+					x.fail("instantiate %s: function %s not found", x.inst[0], x.inst[1])
+				}
+				f.Regs[p] = FuncV{Fn: tf}
+				x.ParamVals[p.Name()] = FuncV{Fn: tf}
+				bound = true
+			}
+		}
+		if !bound {
+			x.fail("instantiate: no parameter %s", x.inst[0])
 		}
 	}
 	for _, fv := range x.Fn.FreeVars {
